@@ -40,3 +40,19 @@ pub fn run() {
     let tx = tx.apply_args(&args).unwrap().apply_fees(0).unwrap().reduce().unwrap();
     println!("withdrawal block with `redeemer: ()`: {}", redeemers(tx));
 }
+
+pub fn run_c09() {
+    use pallas::ledger::primitives::conway::TransactionOutput;
+    for (name, d) in [("2^70", E::Number(1i128 << 70)), ("-(2^70)", E::Number(-(1i128 << 70))), ("i128::MIN", E::Number(i128::MIN)), ("u64::MAX", E::Number(u64::MAX as i128)), ("case 7 of a variant", E::Struct(StructExpr { constructor: 7, fields: vec![] })), ("case 127", E::Struct(StructExpr { constructor: 127, fields: vec![] })), ("case 128", E::Struct(StructExpr { constructor: 128, fields: vec![num(1)] }))] {
+        let mut t = base_tx();
+        t.outputs[0].datum = d;
+        let mut c = cm_compiler();
+        let x = c.compile(&AnyTir::V1Beta0(t)).unwrap();
+        let tx = MultiEraTx::decode(&x.payload).unwrap();
+        let tx = tx.as_conway().unwrap();
+        if let TransactionOutput::PostAlonzo(o) = &tx.transaction_body.outputs[0] {
+            let raw = pallas::codec::minicbor::to_vec(o.datum_option.as_ref().unwrap()).unwrap();
+            println!("{:22} -> datum option cbor {}", name, hex::encode(raw));
+        }
+    }
+}
